@@ -1,5 +1,5 @@
 CONSTANTS MaxRow = 1048576 MaxCol = 16384
-  NSheets = {1} Pool = "full" NPos = 2 MaxCells = 2 Depth = 3 MaxSaves = 1 Wide = FALSE Emit = "paths" Dev = {}
+  NSheets = {1} Pool = "full" NPos = 2 MaxCells = 2 Depth = 3 MaxSaves = 0 Wide = FALSE Emit = "paths" Dev = {}
 SPECIFICATION MCSpec
 INVARIANTS EmitInv
 CHECK_DEADLOCK FALSE
